@@ -115,6 +115,30 @@ func runC17(p *Program, r *Result) {
 			}
 		}
 		r.Check(okLookup, occ.String(), "exec:lookup", r.pos(execCall), short(calleeName(execCall.Common()))+" (PATH lookup that refuses relative results)", "process created through "+badName+" without the PATH lookup")
+		// the refusal of a program found relative to the current directory is carried by the
+		// command's Err field: nothing in the module assigns it
+		errStore := ""
+		for _, f := range p.Funcs {
+			if !p.inModule(f) {
+				continue
+			}
+			for _, b := range f.Blocks {
+				for _, in := range b.Instrs {
+					st, ok := in.(*ssa.Store)
+					if !ok {
+						continue
+					}
+					fa, ok := st.Addr.(*ssa.FieldAddr)
+					if !ok {
+						continue
+					}
+					if ts := typeString(fa.X.Type()); (ts == "*os/exec.Cmd" || ts == "*golang.org/x/sys/execabs.Cmd") && fieldName(fa.X.Type(), fa.Field) == "Err" {
+						errStore = f.String() + " at " + r.pos(st)
+					}
+				}
+			}
+		}
+		r.Check(errStore == "", occ.String(), "exec:err-kept", "", "the command's Err (program found relative to the current directory) is left alone", "the command's Err field is assigned in "+errStore+": the refusal to run a program found through a relative PATH entry is switched off")
 		// the hook is never assigned by production code
 		g := p.Global(pkgPlugin, "testOnlyPluginPath")
 		okh := g != nil
